@@ -132,6 +132,7 @@ fn chain(e: &PdfError) -> String {
         PdfError::NoOpArg => "NoOpArg".into(),
         PdfError::Parse { .. } | PdfError::Encoding { .. } => "Parse".into(),
         PdfError::Reference => "Reference".into(),
+        PdfError::NoneError { .. } => "NoneError".into(),
         PdfError::MissingEntry { field, .. } => format!("Missing({})", field),
         PdfError::Try { source, .. } => format!("Try>{}", chain(source)),
         PdfError::Shared { source } => format!("Shared>{}", chain(source)),
@@ -194,6 +195,47 @@ fn roundtrip<T: Object + ObjectWrite>(st: &mut St, p: Primitive, next_id: usize)
     Ok(out)
 }
 
+/// stream dictionaries: StreamInfo<T>::from_primitive -> Stream<T> (no data) -> to_pdf_stream -> its dictionary
+fn step_stream<T: Object + ObjectWrite>(st: &mut St, p: Primitive) -> (Vec<Vec<u8>>, Option<Primitive>) {
+    let v = { let r = st.resolver(); StreamInfo::<T>::from_primitive(p, &r) };
+    match v {
+        Err(e) => (vec![chain(&e).into_bytes()], None),
+        Ok(si) => {
+            let StreamInfo { filters, file, file_filters, info } = si;
+            let mut s = Stream::new(info, Vec::<u8>::new());
+            s.info.filters = filters;
+            s.info.file = file;
+            s.info.file_filters = file_filters;
+            match s.to_pdf_stream(st) {
+                Err(e) => (vec![b"ok".to_vec(), format!("!{}", chain(&e)).into_bytes()], None),
+                Ok(ps) => {
+                    let q = Primitive::Dictionary(ps.info);
+                    (vec![b"ok".to_vec(), cs(&q), b"[]".to_vec()], Some(q))
+                }
+            }
+        }
+    }
+}
+fn roundtrip_stream<T: Object + ObjectWrite>(st: &mut St, p: Primitive) -> R {
+    let (mut out, q) = step_stream::<T>(st, p);
+    if let Some(q) = q {
+        let (o2, _) = step_stream::<T>(st, q);
+        out.extend(o2);
+    }
+    Ok(out)
+}
+fn do_stream(name: &str, st: &mut St, p: Primitive) -> Option<R> {
+    Some(match name {
+        "Stream<()>" => roundtrip_stream::<()>(st, p),
+        "Stream<ImageDict>" => roundtrip_stream::<ImageDict>(st, p),
+        "Stream<FormDict>" => roundtrip_stream::<FormDict>(st, p),
+        "Stream<FontStream3>" => roundtrip_stream::<pdf::font::FontStream3>(st, p),
+        "Stream<EmbeddedFile>" => roundtrip_stream::<EmbeddedFile>(st, p),
+        _ => return None,
+    })
+}
+const STREAM_NAMES: [&str; 5] = ["Stream<()>", "Stream<ImageDict>", "Stream<FormDict>", "Stream<FontStream3>", "Stream<EmbeddedFile>"];
+
 fn storage_with(objs: &[Vec<u8>]) -> Option<St> {
     let mut st: St = Storage::empty(NoCache, NoCache, NoLog);
     for o in objs {
@@ -210,25 +252,38 @@ fn file_storage(file: &[u8], tolerant: bool) -> Result<St, String> {
     Ok(st)
 }
 
+/// the comparison dictionary: d without the key, or (key field `key=<canon>`) d with that value under the key
+fn split_key(key: &str) -> (&str, Option<Primitive>) {
+    match key.find('=') {
+        Some(i) => (&key[..i], uncanon(key[i + 1..].as_bytes())),
+        None => (key, None),
+    }
+}
+fn base_dict(d: &Dictionary, key: &str, alt: Option<Primitive>) -> Dictionary {
+    let mut b = Dictionary::new();
+    for (k, v) in d.iter() { if k.as_str() != key { b.insert(k.clone(), v.clone()); } }
+    if let Some(q) = alt { b.insert(key, q); }
+    b
+}
 fn dangling<T: Object + ObjectWrite>(st: &mut St, d: &Dictionary, key: &str, r: Primitive) -> R {
     let n = st_len(st);
+    let (key, alt) = split_key(key);
     let mut a = d.clone();
     a.insert(key, r);
     let mut next = n;
     let (mut out, _) = step_rw::<T>(st, Primitive::Dictionary(a), &mut next, false);
-    let mut b = Dictionary::new();
-    for (k, v) in d.iter() { if k.as_str() != key { b.insert(k.clone(), v.clone()); } }
+    let b = base_dict(d, key, alt);
     out.push(b"|".to_vec());
     let (o2, _) = step_rw::<T>(st, Primitive::Dictionary(b), &mut next, false);
     out.extend(o2);
     Ok(out)
 }
 fn dangling_r<T: Object>(st: &mut St, d: &Dictionary, key: &str, r: Primitive) -> R {
+    let (key, alt) = split_key(key);
     let mut a = d.clone();
     a.insert(key, r);
     let mut out = step_r::<T>(st, Primitive::Dictionary(a));
-    let mut b = Dictionary::new();
-    for (k, v) in d.iter() { if k.as_str() != key { b.insert(k.clone(), v.clone()); } }
+    let b = base_dict(d, key, alt);
     out.push(b"|".to_vec());
     out.extend(step_r::<T>(st, Primitive::Dictionary(b)));
     Ok(out)
@@ -310,6 +365,13 @@ types! {
     "Date" => pdf::primitive::Date,
     "Rectangle" => Rectangle,
     "Matrix" => pdf::content::Matrix,
+    "Action" => Action,
+    "Dest" => Dest,
+    "MaybeNamedDest" => MaybeNamedDest,
+    "NameTree<Primitive>" => NameTree<Primitive>,
+    "NumberTree<PageLabel>" => NumberTree<PageLabel>,
+    "Font" => pdf::font::Font,
+    "Encoding" => pdf::encoding::Encoding,
   ],
   r: [
     "CryptDict" => pdf::crypt::CryptDict,
@@ -323,13 +385,17 @@ pub fn dispatch(mode: &str, f: &[Vec<u8>]) -> Option<R> {
     let s = |i: usize| std::str::from_utf8(crate::util::fld(f, i)).unwrap_or("").to_string();
     Some(match mode {
         // the type names this harness can dispatch (one field each)
-        "typed_types" => Ok(names().iter().map(|n| n.as_bytes().to_vec()).collect()),
+        "typed_types" => Ok(names().iter().chain(STREAM_NAMES.iter()).map(|n| n.as_bytes().to_vec()).collect()),
         // type, value (canon), objects 1..n (canon)  ->  r1 w1 c1 r2 w2 c2
         "typed_roundtrip" => {
             let p = match uncanon(crate::util::fld(f, 1)) { Some(p) => p, None => return Some(Err("BadCanon".into())) };
             let objs = if f.len() > 2 { &f[2..] } else { &[][..] };
             let mut st = match storage_with(objs) { Some(s) => s, None => return Some(Err("BadCanon".into())) };
-            match do_roundtrip(&s(0), &mut st, p, objs.len() + 1) { Some(r) => r, None => return Some(Err("UnknownType".into())) }
+            if s(0).starts_with("Stream<") {
+                match do_stream(&s(0), &mut st, p) { Some(r) => r, None => return Some(Err("UnknownType".into())) }
+            } else {
+                match do_roundtrip(&s(0), &mut st, p, objs.len() + 1) { Some(r) => r, None => return Some(Err("UnknownType".into())) }
+            }
         }
         // opts, type, dictionary (canon), key, reference (canon), file  ->  rA wA cA | rB wB cB
         "dangling" => {
